@@ -58,6 +58,7 @@ class Jail:
         self.refused: list[tuple] = []
         self.on_boundary = None           # callable(index, op, paths) or None
         self.on_after_open = None         # callable(paths) after a writing open
+        self.on_sched = None              # callable(op, paths, mutating): E7
         self.mut_count = 0
         self.recording = True
         self.sorted_listdir = True
@@ -67,6 +68,10 @@ class Jail:
         return rp == self.root or rp.startswith(self.root + os.sep)
 
     def note(self, op: str, *paths, mutating: bool):
+        sc = self.on_sched
+        if sc is not None:
+            # E7 scheduling point: before every filesystem call, reads too
+            sc(op, paths, mutating)
         if self.cheap:
             if not mutating:
                 return ()
